@@ -69,13 +69,23 @@ class AsyncHTTP11Connection(AsyncConnectionInterface):
                 f"to {self._origin}"
             )
 
-        async with self._state_lock:
-            if self._state in (HTTPConnectionState.NEW, HTTPConnectionState.IDLE):
-                self._request_count += 1
-                self._state = HTTPConnectionState.ACTIVE
-                self._expire_at = None
-            else:
-                raise ConnectionNotAvailable()
+        try:
+            async with self._state_lock:
+                if self._state in (HTTPConnectionState.NEW, HTTPConnectionState.IDLE):
+                    self._request_count += 1
+                    self._state = HTTPConnectionState.ACTIVE
+                    self._expire_at = None
+                else:
+                    raise ConnectionNotAvailable()
+        except BaseException as exc:
+            if self._state == HTTPConnectionState.NEW:
+                # Cancelled before the request this connection was opened for
+                # could start. A connection in the NEW state is never handed
+                # to another request, so close it rather than leaving it in
+                # the pool where it can neither be used, expire nor be evicted.
+                with AsyncShieldCancellation():
+                    await self.aclose()
+            raise exc
 
         try:
             kwargs = {"request": request}
